@@ -145,8 +145,8 @@ package match
 // An array is a set: for every search branch the member pattern is tried
 // against EVERY still-unconsumed member, whatever order the map yields them in
 // (the search is left early only by an error).
-//@   loop 1 invariant[C02,C03] samemembers: forall j int :: (j in mm) <==> atloop(j in mm)
-//@   loop 0 invariant[C02,C03] alltried: rangeindex >= 0 ==> forall j int :: (j in fxas[rangeindex]) ==> seen(1)[j]
+//@   loop 1 invariant[C03] samemembers: forall j int :: (j in mm) <==> atloop(j in mm)
+//@   loop 0 invariant[C03] alltried: rangeindex >= 0 ==> forall j int :: (j in fxas[rangeindex]) ==> seen(1)[j]
 
 //@ func (*Matcher).mapcatMatch returns res, err
 //@   safety C01
